@@ -103,11 +103,11 @@ def run(ctx):
             enc_ok[e["t"]] = enc_ok.get(e["t"], 0) + e["ok"]
             distinct.add(("e", e["t"], json.dumps(e["val"], sort_keys=True)))
     require(len(acc) == ntypes + 5 and len(rej) == ntypes + 5, "some decoder never accepted or never rejected: acc=%d rej=%d of %d"
-            % (len(acc), len(rej), ntypes + 5))
-    require(len(enc_ok) == ntypes and all(v > 0 for v in enc_ok.values()), "some type was never encoded")
-    require(walk_ok > 100 and walk_err > 100 and split_ok > 100, "stream/split paths not exercised")
-    require(huge > 10, "no input declaring a size of 4+ bytes")
-    require(events == ndec + nenc, "events judged (%d) != events recorded (%d)" % (events, ndec + nenc))
+            % (len(acc), len(rej), ntypes + 5), ctx=ctx)
+    require(len(enc_ok) == ntypes and all(v > 0 for v in enc_ok.values()), "some type was never encoded", ctx=ctx)
+    require(walk_ok > 100 and walk_err > 100 and split_ok > 100, "stream/split paths not exercised", ctx=ctx)
+    require(huge > 10, "no input declaring a size of 4+ bytes", ctx=ctx)
+    require(events == ndec + nenc, "events judged (%d) != events recorded (%d)" % (events, ndec + nenc), ctx=ctx)
     coverage = {
         "evaluations": real_calls,
         "distinct_nontrivial": len(distinct),
